@@ -82,6 +82,7 @@ type Ctx struct {
 	Repo   string
 	Verif  string
 	Out    string
+	Dump   bool
 	GOOS   string
 	GOARCH string
 
@@ -105,6 +106,7 @@ type Ctx struct {
 	t0       time.Time
 	nPkgs    int
 	nFuncs   int
+	zfuncs   []*ssa.Function
 }
 
 func die(format string, a ...interface{}) {
@@ -494,6 +496,11 @@ func (c *Ctx) finish() int {
 			} else {
 				viol = append(viol, o)
 			}
+		}
+	}
+	if c.Dump {
+		for _, o := range c.obs {
+			fmt.Printf("OB %-9s %s  @%s  %s\n", o.Status, o.Key, o.Pos, shortStr(o.Detail, 120))
 		}
 	}
 	for _, o := range knownHits {
